@@ -268,6 +268,8 @@ class Effects:
                 cls, _ = self.classify(site)
                 if cls.startswith("param:"):
                     cur.add(cls.split(":", 1)[1])
+                elif cls == "self":
+                    cur.add("self")
                 elif cls == "doc":
                     r = root_name(site.receiver)
                     if r in fi.params():
